@@ -960,7 +960,106 @@ func extractC17Entry(c *Ctx, kf, bf *ast.File) error {
 	c.P("Definition send_valset_shape : list string := %s.", CoqStrList(shape))
 	c.P("Definition send_valset_loop : list string := %s.", CoqStrList(inLoop))
 	c.Info("entry_points", sites)
+	if err := extractC17Run(c); err != nil {
+		return err
+	}
 	return extractC17Keys(c)
+}
+
+// Round 7: the sender word is appended unconditionally; a run reports success only after the enqueue.
+func extractC17Run(c *Ctx) error {
+	f, err := c.Parse("x/evm/keeper/scheduler_job.go")
+	if err != nil {
+		return err
+	}
+	inj := FindFunc(f, "", "injectSenderIntoPayload")
+	if inj == nil {
+		return fmt.Errorf("injectSenderIntoPayload not found")
+	}
+	var stmts []string
+	for _, st := range inj.Body.List {
+		switch x := st.(type) {
+		case *ast.AssignStmt, *ast.ReturnStmt:
+		case *ast.IfStmt:
+			if cond := squash(c.Src(x.Cond)); cond != "err != nil" || x.Init != nil || x.Else != nil {
+				return fmt.Errorf("injectSenderIntoPayload: branch on %q (the sender word must be appended whatever the payload is)", cond)
+			}
+		default:
+			return fmt.Errorf("injectSenderIntoPayload: statement %q is not straight-line", squash(c.Src(st)))
+		}
+		nested := false
+		ast.Inspect(st, func(n ast.Node) bool {
+			switch n.(type) {
+			case *ast.FuncLit, *ast.SwitchStmt, *ast.TypeSwitchStmt, *ast.ForStmt, *ast.RangeStmt:
+				nested = true
+			case *ast.IfStmt:
+				if n != st {
+					nested = true
+				}
+			}
+			return true
+		})
+		if nested {
+			return fmt.Errorf("injectSenderIntoPayload: branch inside %q", squash(c.Src(st)))
+		}
+		stmts = append(stmts, squash(c.Src(st)))
+	}
+	c.P("(* injectSenderIntoPayload: straight-line, the only condition is the error of zeroPadBytes *)")
+	c.P("Definition inject_stmts : list string := %s.", CoqStrList(stmts))
+
+	// every return with a nil error comes after the call that enqueues (or hands the run on)
+	type fnq struct{ file, recv, name, callee string }
+	var rets []string
+	for _, q := range []fnq{
+		{"x/evm/keeper/scheduler_job.go", "Keeper", "ExecuteJob", "AddSmartContractExecutionToConsensus"},
+		{"x/evm/keeper/smart_contract_deployment.go", "Keeper", "AddSmartContractExecutionToConsensus", "PutMessageInQueue"},
+		{"x/scheduler/keeper/keeper.go", "Keeper", "ScheduleNow", "ExecuteJob"},
+		{"x/scheduler/keeper/keeper.go", "Keeper", "ExecuteJob", "ScheduleNow"},
+		{"x/scheduler/keeper/msg_server_execute_job.go", "msgServer", "ExecuteJob", "ExecuteJob"},
+		{"x/scheduler/bindings/msg_plugin.go", "customMessenger", "executeJob", "ExecuteJob"},
+		{"x/scheduler/bindings/legacy.go", "customLegacyMessenger", "DispatchMsg", "ExecuteJob"},
+	} {
+		pf, err := c.Parse(q.file)
+		if err != nil {
+			return err
+		}
+		fd := FindFunc(pf, q.recv, q.name)
+		if fd == nil {
+			return fmt.Errorf("%s.%s not found", q.recv, q.name)
+		}
+		cs := Calls(fd.Body, q.callee)
+		if len(cs) != 1 {
+			return fmt.Errorf("%s.%s: expected exactly one call of %s", q.recv, q.name, q.callee)
+		}
+		at := cs[0].Pos()
+		var bad error
+		ast.Inspect(fd.Body, func(n ast.Node) bool {
+			if _, ok := n.(*ast.FuncLit); ok {
+				return false
+			}
+			r, ok := n.(*ast.ReturnStmt)
+			if !ok || len(r.Results) == 0 {
+				return true
+			}
+			last := r.Results[len(r.Results)-1]
+			id, isNil := last.(*ast.Ident)
+			if isNil && id.Name == "nil" {
+				if r.Pos() < at {
+					bad = fmt.Errorf("%s.%s: %q reports success before %s is called", q.recv, q.name, squash(c.Src(r)), q.callee)
+				}
+				rets = append(rets, q.recv+"."+q.name+": "+squash(c.Src(r))+" after "+q.callee)
+			} else if len(Calls(r, q.callee)) == 1 {
+				rets = append(rets, q.recv+"."+q.name+": returns what "+q.callee+" returns")
+			}
+			return true
+		})
+		if bad != nil {
+			return bad
+		}
+	}
+	c.P("(* on the way of a run: every return with a nil error follows the call that enqueues / hands the run on *)")
+	c.P("Definition success_returns : list string := %s.", CoqStrList(rets))
+	return nil
 }
 
 // Third part (round 3): the key families of the scheduler module's store.  Every KeyPrefix("lit") in
